@@ -37,7 +37,7 @@ PROFILES = {
     'C05': gen.profile(p_fail=0.35, p_retry=0.3, p_lazy_fail_shape=0.2, p_fatal=0.08),
     'C07': gen.profile(p_fail=0.2, p_generic=0.12, p_rec=0.25, p_rec_paths_shape=0.12),
     'C08': gen.profile(p_fail=0.15, p_rec=0.25, p_generic=0.12, p_rec_paths_shape=0.08),
-    'C09': gen.profile(p_sw=0.45, p_oneof=0.1, p_rec=0.12, p_share_decider=0.5, p_unnamed_switch=0.4, p_share_lazy=0.4, p_lazy_fail_shape=0.12),
+    'C09': gen.profile(p_sw=0.45, p_oneof=0.1, p_rec=0.12, p_share_decider=0.5, p_unnamed_switch=0.4, p_share_lazy=0.4, p_lazy_fail_shape=0.12, p_shared_switch_shape=0.1),
     'C10': gen.profile(p_oneof=0.45, p_sw=0.1, p_rec=0.1, p_fail=0.25, p_cand_falsy=0.3, p_contain_shape=0.4, p_deep_chain=0.1, p_lazy_fail_shape=0.12, p_reuse_lazy=0.25, p_share_cand=0.3, p_sibling_oneof_shape=0.1, p_late_oneof_shape=0.1),
     'C11': gen.profile(p_rec=0.5, p_sw=0.1, p_oneof=0.15, p_rec_nested=0.45, p_falsy_ad=0.3, p_nested_exhaust_shape=0.3),
     'C12': gen.profile(p_retry=0.8, p_fail=0.5, n_max=6),
